@@ -8,9 +8,9 @@ RULE = ("conformant responses of C01's worlds are corrupted at one point (null a
 
 
 def run(tier, seed):
-    n = 1200 if tier == "thorough" else 140
+    n = 1200 if tier == "thorough" else 165
     return cw.run_shared(PROP, tier, seed, n, RULE, floors={"c05.corruptions": 2000, "c05.annotations_checked": 1000, "c05.kind.null-at-nonnull": 100,
-                                                             "c05.kind.key-removed": 100, "c05.kind.typename-not-possible": 50}, dirty_sets=[[], ["dir.custom", "frag.uses_variables"], [], ["shape.iface_hierarchy"], ["schema.extend"], ["sel.field_merge"], [], ["frag.inline.on_interface"], ["frag.inline.on_same_abstract"], ["names.pydantic_attr"]])
+                                                             "c05.kind.key-removed": 100, "c05.kind.typename-not-possible": 50}, dirty_sets=[[], ["dir.custom", "frag.uses_variables"], ["frag.inline.on_interface"], ["shape.iface_hierarchy"], ["schema.extend"], ["sel.field_merge"], [], ["frag.inline.on_interface"], ["frag.inline.on_same_abstract"], ["names.pydantic_attr"], []])
 
 
 def replay(data):
